@@ -196,13 +196,62 @@ def _definition(m, kind):
         m.prove("field_ref.resolves", got["fields"][0]["type"] == target, "field reference resolved to a different full name")
 
 
+def _spec_symbol_ok(m, s):
+    """the specification's symbol syntax [A-Za-z_][A-Za-z0-9_]*, stated on character codes"""
+    n = len(s)
+    if n == 0:
+        return z3.BoolVal(False)
+
+    def code(i):
+        if m.sym:
+            c = s.cs[i]
+            return c if not isinstance(c, int) else z3.BitVecVal(c, 8)
+        return z3.BitVecVal(ord(s[i]), 8)
+
+    def alpha_(c):
+        return z3.Or(z3.And(z3.UGE(c, 65), z3.ULE(c, 90)), z3.And(z3.UGE(c, 97), z3.ULE(c, 122)), c == 95)
+
+    def alnum_(c):
+        return z3.Or(alpha_(c), z3.And(z3.UGE(c, 48), z3.ULE(c, 57)))
+    return z3.And(alpha_(code(0)), *[alnum_(code(i)) for i in range(1, n)])
+
+
+CAP_SYM = [3]
+
+
+def h_enum_symbols(m):
+    """_validate_enum_symbols accepts exactly: every symbol well-formed, symbols pairwise distinct, default (if any)
+    among the symbols - for symbolic symbol texts"""
+    mod = m.mod(SP)
+    com = m.mod(SC)
+    s0, s1 = m.sstr("A", CAP_SYM[0], small=2), m.sstr("B", CAP_SYM[0], small=2)
+    has_d = m.bool("has_default")
+    d = m.sstr("D", CAP_SYM[0], small=2)
+    sch = {"type": "enum", "name": "E", "symbols": [s0, s1]}
+    if has_d:
+        sch["default"] = d
+    ok0, ok1 = _spec_symbol_ok(m, s0), _spec_symbol_ok(m, s1)   # (fixes the lengths: one path per length pair)
+    want = z3.And(ok0, ok1, z3.Not(Z(s0 == s1)))
+    if "default" in sch:
+        want = z3.And(want, z3.Or(Z(d == s0), Z(d == s1)))
+    try:
+        mod._validate_enum_symbols(sch)
+    except com.SchemaParseException:
+        m.prove("enum.rejected_only_if_illformed", z3.Not(want), "a well-formed enum (symbols, default) was rejected")
+        return
+    m.prove("enum.accepted_only_if_wellformed", want, "an enum with a malformed/duplicate symbol or a default outside the symbols was accepted")
+
+
 def specs(tier):
     th = tier == "thorough"
     CAP_NAME[0] = 7 if th else 6
     CAP_NS[0] = 6 if th else 5
     CAP_DEF[:] = [5, 4, 4] if th else [4, 3, 3]
     b = 3000 if th else 280
+    CAP_SYM[0] = 4 if th else 3
     return [
+        dict(harness=h_enum_symbols, prefix="names.char.enum", expect=["enum.rejected_only_if_illformed", "enum.accepted_only_if_wellformed"],
+             max_paths=20000, budget_s=b),
         dict(harness=h_schema_name, prefix="names.char.schema_name", expect=["fullname", "namespace_for_children"], max_paths=20000, budget_s=b),
         dict(harness=h_spelling, prefix="names.char.spelling", expect=["same_fullname", "same_namespace"], max_paths=20000, budget_s=b),
         dict(harness=h_reference, prefix="names.char.reference", expect=["unknown_iff_undefined", "resolves_to_fullname", "unknown_names_the_type"],
